@@ -1,6 +1,132 @@
-/- Driver/C17 — stub until the property's model driver is written. -/
+/-
+Driver/C17 — runs the pointer-level model `Model.LruPtr` (the code as written) on protocol lines
+and, beside it, the proved sequence-level model `Model.LruSeq`; any difference between the two
+layers is appended to the response line (`SEQ-DIFFERS …`) so that it shows up as a
+correspondence failure.  The two layers are allowed to part only after a reload has dropped an
+all-zero key (the recorded format-level finding), where `LruSeq` stops being exact by design.
+
+MD5 is a parameter of the model; the driver instantiates it with a constant (the hash field is
+not an observable of the property, and the model only ever reads files it wrote itself).
+-/
+import Std.Data.HashMap
+import Std.Data.HashSet
 import Driver.Common
-open Drv
+import Cascette.Model.LruPtr
+import Cascette.Model.LruSeq
+open Cascette Drv
+open Cascette.Spec.Lru
+open Cascette.Model
+
+def md5c : Bytes → Bytes := fun _ => LruPtr.zeros16
+
+/-- rendering helper: a key as one number (only used to index hash tables in the driver) -/
+def keyNat (k : LruPtr.Key) : Nat × Nat :=
+  ((k.take 7).foldl (fun a b => a * 256 + b.toNat) 0, (k.drop 7).foldl (fun a b => a * 256 + b.toNat) 0)
+
+structure DState where
+  started : Bool
+  keys : List LruPtr.Key
+  /-- universe key ↦ its index, for rendering `order=` -/
+  index : Std.HashMap (Nat × Nat) Nat
+  ptr : LruPtr.Ptr
+  seq : LruSeq.Seq LruPtr.Key
+  seqExact : Bool
+
+def DState.empty : DState :=
+  { started := false, keys := [], index := {}, ptr := LruPtr.Ptr.init 0, seq := LruSeq.Seq.init 0, seqExact := true }
+
+def parseKeys (s : String) : Option (List LruPtr.Key) :=
+  (s.splitOn ",").mapM fun h =>
+    match parseHex h with
+    | some b => if b.length = 9 then some b else none
+    | none => none
+
+def keyIndex (index : Std.HashMap (Nat × Nat) Nat) (k : LruPtr.Key) : String :=
+  match index[keyNat k]? with
+  | some i => toString i
+  | none => "?"
+
+def fmtOrder (index : Std.HashMap (Nat × Nat) Nat) : Option (List LruPtr.Key) → String
+  | none => "loop"
+  | some [] => "-"
+  | some l => ",".intercalate (l.map (keyIndex index))
+
+/-- `contains` for every universe key at once: `contains k` is `k ∈ key_map`, so one pass over
+the key map's keys answers all of them. -/
+def hasBits (keys present : List LruPtr.Key) : List Bool :=
+  let set : Std.HashSet (Nat × Nat) := present.foldl (fun acc k => acc.insert (keyNat k)) {}
+  keys.map fun k => set.contains (keyNat k)
+
+def fmtHas (bits : List Bool) : String :=
+  if bits.isEmpty then "-" else String.ofList (bits.map fun b => if b then '1' else '0')
+
+def fmtOut : Op LruPtr.Key → Out → String
+  | .evictTail, .bool b => if b then "some" else "none"
+  | _, .bool b => if b then "true" else "false"
+  | _, .evicted n f => s!"{n} {f}"
+  | _, .ok => "ok"
+  | _, .err => "err"
+  | _, .cycle l e f a => s!"ok loaded={l} evicted={e} freed={f} active={a}"
+
+def ptrView (st : DState) (p : LruPtr.Ptr) : String :=
+  s!"len={LruPtr.len p} order={fmtOrder st.index (LruPtr.iter p)} has={fmtHas (hasBits st.keys (p.keyMap.map (·.1)))} gen={p.gen} prev={p.prev}"
+
+def seqView (st : DState) (q : LruSeq.Seq LruPtr.Key) : String :=
+  s!"len={q.len} order={fmtOrder st.index (some (q.iter LruPtr.zeroKey))} has={fmtHas (hasBits st.keys q.order)} gen={q.gen} prev={q.prev}"
+
+def parseOp (keys : List LruPtr.Key) : List String → Option (Op LruPtr.Key)
+  | ["touch", i] => (i.toNat?.bind (keys[·]?)).map .touch
+  | ["remove", i] => (i.toNat?.bind (keys[·]?)).map .remove
+  | ["evict_tail"] => some .evictTail
+  | ["evict_to", t, a] => match t.toNat?, a.toNat? with
+    | some t, some a => some (.evictTo t a)
+    | _, _ => none
+  | ["bump"] => some .bump
+  | ["checkpoint"] => some .checkpoint
+  | ["load", g] => g.toNat?.map .load
+  | ["run_cycle", l, a] => match l.toNat?, a.toNat? with
+    | some l, some a => some (.runCycle l a)
+    | _, _ => none
+  | ["reset"] => some .reset
+  | ["reopen"] => some .reopen
+  | _ => none
+
+/-- does this op restore a snapshot that holds the all-zero key (at the `LruSeq` level)? -/
+def restoresZero (q : LruSeq.Seq LruPtr.Key) : Op LruPtr.Key → Bool
+  | .load g => match Files.lookup q.files g with
+    | some snap => snap.contains LruPtr.zeroKey
+    | none => false
+  | .runCycle _ _ => match Files.latest q.files with
+    | some g => match Files.lookup q.files g with
+      | some snap => snap.contains LruPtr.zeroKey
+      | none => false
+    | none => false
+  | _ => false
+
+def handle (st : DState) (toks : List String) : DState × String :=
+  match toks with
+  | ["begin", c, k] =>
+    match (c.dropPrefix? "cap=").bind (·.toString.toNat?), (k.dropPrefix? "keys=").bind (fun r => parseKeys r.toString) with
+    | some cap, some keys =>
+      ({ started := true, keys := keys,
+         index := (keys.zipIdx).foldl (fun m (k, i) => m.insert (keyNat k) i) {}, ptr := LruPtr.Ptr.init cap, seq := LruSeq.Seq.init cap, seqExact := true }, "ok")
+    | _, _ => (st, "bad-op")
+  | _ =>
+    if !st.started then (st, "bad-op") else
+    match parseOp st.keys toks with
+    | none => (st, "bad-op")
+    | some op =>
+      match LruPtr.step md5c st.ptr op with
+      | none => (st, "panic")
+      | some (p', out) =>
+        let exact := st.seqExact && !restoresZero st.seq op
+        let (q', qout) := LruSeq.step LruPtr.zeroKey st.seq op
+        let line := s!"{fmtOut op out} | {ptrView st p'}"
+        let same := out == qout && LruPtr.len p' == q'.len && LruPtr.iter p' == some (q'.iter LruPtr.zeroKey)
+          && hasBits st.keys (p'.keyMap.map (·.1)) == hasBits st.keys q'.order && p'.gen == q'.gen && p'.prev == q'.prev
+        let line := if exact && !same then
+          line ++ " SEQ-DIFFERS " ++ s!"{fmtOut op qout} | {seqView st q'}" else line
+        ({ st with ptr := p', seq := q', seqExact := exact }, line)
 
 def main : IO Unit := do
-  loopPure (← IO.getStdin) (← IO.getStdout) (fun _ => "bad-op")
+  loopState (← IO.getStdin) (← IO.getStdout) handle DState.empty
